@@ -587,10 +587,15 @@ def c13_protocol(case):
     if tr != base:
         fails.append('attaching a listener overriding %r changed the trial sequence' % sorted(sub))
     xs = H.trial_xs(s)
+    if sol is None:
+        return fails + ['Solve returned no solution']
     if 'B' in sub and [e for e in ev if e[0] == 'B'] != [('B',)]:
         fails.append('BeforeMethodStart delivered %d times' % len([e for e in ev if e[0] == 'B']))
-    if 'B' in sub and ev and ev[0] != ('B',):
-        fails.append('BeforeMethodStart was not the first notification')
+    if 'B' in sub:
+        firsttrial = next((k for k, e in enumerate(ev) if e[0] == 'E' and e[1]), None)
+        bpos = next((k for k, e in enumerate(ev) if e[0] == 'B'), None)
+        if firsttrial is not None and (bpos is None or bpos > firsttrial):
+            fails.append('BeforeMethodStart was not delivered before the first trials were reported')
     if 'E' in sub:
         es = [e for e in ev if e[0] == 'E']
         # expected batches: the explicit ones, then one per iteration of Solve
